@@ -7,7 +7,8 @@
 (* (ConnExp) and trace (ConnTrace) modules that bind the model to the code.   *)
 EXTENDS Conn
 
-CONSTANTS Sizes,        \* payload sizes offered to Send / SendConnless
+CONSTANTS MaxVitalS,    \* vital chunks the accepting side may send (MaxVital bounds the connecting side)
+          Sizes,        \* payload sizes offered to Send / SendConnless
           Senders,      \* endpoints whose application sends chunks
           MaxVital, MaxNV, MaxConnless,    \* per endpoint
           MaxInFlight,  \* datagrams in flight per direction (state constraint)
@@ -91,7 +92,7 @@ SendWith(e, v, sz, id) ==
 Send(e) ==
   /\ e \in Senders
   /\ \E v \in BOOLEAN, sz \in Sizes :
-       /\ IF v THEN cnt.vital[e] < MaxVital ELSE cnt.nv[e] < MaxNV
+       /\ IF v THEN cnt.vital[e] < (IF e = "s" THEN MaxVitalS ELSE MaxVital) ELSE cnt.nv[e] < MaxNV
        /\ SendWith(e, v, sz, IF sz = 0 THEN 0 ELSE NextId(e))
 
 ConnlessWith(e, sz, id) ==
